@@ -19,7 +19,10 @@ pub fn property<C: Codec>() -> Property {
 
 /// a user request the oracle can recognise on the wire: DIRECT_OPERATE of one g41v2 with a unique 16-bit index
 fn tagged_command(tag: u16) -> UserKind {
-    UserKind::Command { sbo: false, headers: vec![vec![(2, tag, true)]] }
+    UserKind::Command {
+        sbo: false,
+        headers: vec![vec![(2, tag, true)]],
+    }
 }
 
 fn tag_of_request(bytes: &[u8]) -> Option<u16> {
@@ -121,7 +124,11 @@ impl Scenario for ScheduleScenario {
                 for _ in 0..n {
                     let i = rng.urange(0, masks.len() - 1);
                     let m = masks.remove(i);
-                    script.push(MOp::AddPoll { assoc: k, classes: m, period_ms: *rng.pick(&[100u64, 500, 1000, 3000, 7000]) });
+                    script.push(MOp::AddPoll {
+                        assoc: k,
+                        classes: m,
+                        period_ms: *rng.pick(&[100u64, 500, 1000, 3000, 7000]),
+                    });
                     *npolls += 1;
                 }
             }
@@ -143,7 +150,10 @@ impl Scenario for ScheduleScenario {
                     let n = *rng.pick(&[1usize, 1, 2, 3, 5]);
                     for _ in 0..n {
                         tag += 1;
-                        script.push(MOp::User { assoc: rng.urange(0, nassoc - 1), kind: tagged_command(tag) });
+                        script.push(MOp::User {
+                            assoc: rng.urange(0, nassoc - 1),
+                            kind: tagged_command(tag),
+                        });
                     }
                 }
                 4 | 5 => {
@@ -169,7 +179,10 @@ impl Scenario for ScheduleScenario {
                         script.push(MOp::RemovePoll(rng.urange(0, npolls - 1)));
                         npolls -= 1;
                     } else {
-                        script.push(MOp::AnswerLinkStatus { assoc: rng.urange(0, nassoc - 1), on: rng.bool() });
+                        script.push(MOp::AnswerLinkStatus {
+                            assoc: rng.urange(0, nassoc - 1),
+                            on: rng.bool(),
+                        });
                     }
                 }
                 8 => {
@@ -195,7 +208,11 @@ impl Scenario for ScheduleScenario {
             cfg,
             chunk: rng.below(5) as u8,
             chunk_seed: rng.next_u64(),
-            latency: if rng.chance(1, 2) { (rng.below(30), rng.below(30)) } else { (0, 0) },
+            latency: if rng.chance(1, 2) {
+                (rng.below(30), rng.below(30))
+            } else {
+                (0, 0)
+            },
             script,
             tail_ms: 20_000,
         }
@@ -250,7 +267,10 @@ struct UserRec {
     done: Option<u64>,
 }
 
-pub fn analyse(case: &SmastCase, run: &MastRun) -> (Option<Violation>, bool, u64, Vec<(String, u64)>) {
+pub fn analyse(
+    case: &SmastCase,
+    run: &MastRun,
+) -> (Option<Violation>, bool, u64, Vec<(String, u64)>) {
     let hist = master_time_history(case, run);
     let mut counters: BTreeMap<String, u64> = BTreeMap::new();
     let mut bump = |k: &str, n: u64| *counters.entry(k.to_string()).or_insert(0) += n;
@@ -264,7 +284,13 @@ pub fn analyse(case: &SmastCase, run: &MastRun) -> (Option<Violation>, bool, u64
             }
         };
     }
-    let keep_alive_of = |addr: u16| case.cfg.assocs.iter().find(|a| a.address == addr).and_then(|a| a.keep_alive_ms);
+    let keep_alive_of = |addr: u16| {
+        case.cfg
+            .assocs
+            .iter()
+            .find(|a| a.address == addr)
+            .and_then(|a| a.keep_alive_ms)
+    };
 
     // user requests by tag
     let mut users: Vec<UserRec> = Vec::new();
@@ -278,7 +304,8 @@ pub fn analyse(case: &SmastCase, run: &MastRun) -> (Option<Violation>, bool, u64
     // last time anything happened on the channel (task start/end, connect, message): idle since then
     let mut last_event_t = 0u64;
     // per association: time of the last frame received from it (link activity), for the keep-alive rule
-    let mut last_link_activity: BTreeMap<u16, u64> = case.cfg.assocs.iter().map(|a| (a.address, 0)).collect();
+    let mut last_link_activity: BTreeMap<u16, u64> =
+        case.cfg.assocs.iter().map(|a| (a.address, 0)).collect();
     // service order for the turn-taking rule: (assoc, is_user, start time)
     let mut served: Vec<(u16, bool, u64)> = Vec::new();
     // (association, written at, response deadline)
@@ -290,16 +317,34 @@ pub fn analyse(case: &SmastCase, run: &MastRun) -> (Option<Violation>, bool, u64
         }
         match h {
             H::Op { t, index } => {
-                if let Some((_, what, addr, classes, period)) = run.poll_ops.iter().find(|p| p.0 == *index) {
+                if let Some((_, what, addr, classes, period)) =
+                    run.poll_ops.iter().find(|p| p.0 == *index)
+                {
                     match *what {
-                        "add" => polls.push(PollRec { assoc: *addr, classes: *classes, period: *period, not_before: *t + *period, demanded_at: None, removed: false, running: false, runs: 0, known: true }),
+                        "add" => polls.push(PollRec {
+                            assoc: *addr,
+                            classes: *classes,
+                            period: *period,
+                            not_before: *t + *period,
+                            demanded_at: None,
+                            removed: false,
+                            running: false,
+                            runs: 0,
+                            known: true,
+                        }),
                         "demand" => {
-                            if let Some(p) = polls.iter_mut().find(|p| !p.removed && p.assoc == *addr && p.classes == *classes) {
+                            if let Some(p) = polls
+                                .iter_mut()
+                                .find(|p| !p.removed && p.assoc == *addr && p.classes == *classes)
+                            {
                                 p.demanded_at = Some(*t);
                             }
                         }
                         _ => {
-                            if let Some(p) = polls.iter_mut().find(|p| !p.removed && p.assoc == *addr && p.classes == *classes) {
+                            if let Some(p) = polls
+                                .iter_mut()
+                                .find(|p| !p.removed && p.assoc == *addr && p.classes == *classes)
+                            {
                                 p.removed = true;
                             }
                         }
@@ -308,10 +353,18 @@ pub fn analyse(case: &SmastCase, run: &MastRun) -> (Option<Violation>, bool, u64
                 last_event_t = *t;
             }
             H::UserRequest { t, assoc, id, .. } => {
-                if let Some((_, _, UserKind::Command { headers, .. })) = run.user_kinds.iter().find(|u| u.0 == *id) {
+                if let Some((_, _, UserKind::Command { headers, .. })) =
+                    run.user_kinds.iter().find(|u| u.0 == *id)
+                {
                     let tag = headers[0][0].1;
                     user_by_id.insert(*id, users.len());
-                    users.push(UserRec { tag, assoc: *assoc, submit_t: *t, started: None, done: None });
+                    users.push(UserRec {
+                        tag,
+                        assoc: *assoc,
+                        submit_t: *t,
+                        started: None,
+                        done: None,
+                    });
                 }
                 last_event_t = *t;
             }
@@ -354,7 +407,10 @@ pub fn analyse(case: &SmastCase, run: &MastRun) -> (Option<Violation>, bool, u64
                 };
                 // S3: user requests go ahead of everything else, on whichever association they wait
                 if task != "Command" {
-                    if let Some(u) = users.iter().find(|u| u.submit_t < *t && u.started.is_none() && u.done.is_none()) {
+                    if let Some(u) = users
+                        .iter()
+                        .find(|u| u.submit_t < *t && u.started.is_none() && u.done.is_none())
+                    {
                         fail!(
                             "C19/poll-ahead-of-user-request",
                             task.clone(),
@@ -363,7 +419,12 @@ pub fn analyse(case: &SmastCase, run: &MastRun) -> (Option<Violation>, bool, u64
                     }
                 }
                 running = Some(tasks.len());
-                tasks.push(TaskRec { assoc: *assoc, class, start_t: *t, end_t: None });
+                tasks.push(TaskRec {
+                    assoc: *assoc,
+                    class,
+                    start_t: *t,
+                    end_t: None,
+                });
                 last_event_t = *t;
                 let _ = pos;
             }
@@ -379,7 +440,10 @@ pub fn analyse(case: &SmastCase, run: &MastRun) -> (Option<Violation>, bool, u64
                     // S2: submission order per association
                     if let Some(i) = users.iter().position(|u| u.tag == tag) {
                         let assoc = users[i].assoc;
-                        if let Some(earlier) = users[..i].iter().find(|u| u.assoc == assoc && u.started.is_none() && u.done.is_none()) {
+                        if let Some(earlier) = users[..i]
+                            .iter()
+                            .find(|u| u.assoc == assoc && u.started.is_none() && u.done.is_none())
+                        {
                             fail!(
                                 "C19/user-requests-out-of-order",
                                 "",
@@ -392,7 +456,12 @@ pub fn analyse(case: &SmastCase, run: &MastRun) -> (Option<Violation>, bool, u64
                     let this = tasks[r].assoc;
                     if let Some(prev) = served.last() {
                         if prev.0 == this {
-                            if let Some(w) = users.iter().find(|u| u.assoc != this && u.submit_t < prev.2 && u.started.is_none() && u.done.is_none()) {
+                            if let Some(w) = users.iter().find(|u| {
+                                u.assoc != this
+                                    && u.submit_t < prev.2
+                                    && u.started.is_none()
+                                    && u.done.is_none()
+                            }) {
                                 fail!(
                                     "C19/association-served-twice-while-another-waits",
                                     "user",
@@ -410,10 +479,15 @@ pub fn analyse(case: &SmastCase, run: &MastRun) -> (Option<Violation>, bool, u64
                     let start_t = tasks[r].start_t;
                     let this = tasks[r].assoc;
                     let _ = written;
-                    match polls.iter().position(|p| !p.removed && p.assoc == this && p.classes == mask) {
+                    match polls
+                        .iter()
+                        .position(|p| !p.removed && p.assoc == this && p.classes == mask)
+                    {
                         None => {
                             // a removed poll may still run once if it was picked before the removal was processed
-                            let recently_removed = polls.iter().any(|p| p.removed && p.assoc == this && p.classes == mask);
+                            let recently_removed = polls
+                                .iter()
+                                .any(|p| p.removed && p.assoc == this && p.classes == mask);
                             if !recently_removed {
                                 fail!("C19/poll-nobody-asked-for", format!("{:#x}", mask), format!("{} ms: a poll of classes {:#x} ran for {} but no such poll is configured", start_t, mask, this));
                             }
@@ -432,15 +506,24 @@ pub fn analyse(case: &SmastCase, run: &MastRun) -> (Option<Violation>, bool, u64
                                 );
                             }
                             // S5: not starved - when the channel had been idle since it became due, it starts on time
-                            let due = polls[i].demanded_at.map(|d| d.min(polls[i].not_before)).unwrap_or(polls[i].not_before);
-                            if polls[i].known && start_t > due + 2 && idle_since(&hist[..pos], due, start_t) {
+                            let due = polls[i]
+                                .demanded_at
+                                .map(|d| d.min(polls[i].not_before))
+                                .unwrap_or(polls[i].not_before);
+                            if polls[i].known
+                                && start_t > due + 2
+                                && idle_since(&hist[..pos], due, start_t)
+                            {
                                 fail!(
                                     "C19/poll-late-on-idle-channel",
                                     "",
                                     format!("{} ms: the poll of classes {:#x} for {} (period {} ms) was due at {} ms and nothing else was going on, yet it started only now", start_t, mask, this, polls[i].period, due)
                                 );
                             }
-                            if users.iter().any(|u| u.started.is_none() && u.done.is_none()) {
+                            if users
+                                .iter()
+                                .any(|u| u.started.is_none() && u.done.is_none())
+                            {
                                 nontrivial = true;
                             }
                             polls[i].demanded_at = None;
@@ -452,7 +535,14 @@ pub fn analyse(case: &SmastCase, run: &MastRun) -> (Option<Violation>, bool, u64
                     // S6 for polls: the same association twice in a row while a poll of another association was due all along
                     if let Some(prev) = served.last() {
                         if prev.0 == this {
-                            if let Some(w) = polls.iter().find(|p| !p.removed && !p.running && p.known && p.assoc != this && p.not_before < prev.2 && p.runs > 0) {
+                            if let Some(w) = polls.iter().find(|p| {
+                                !p.removed
+                                    && !p.running
+                                    && p.known
+                                    && p.assoc != this
+                                    && p.not_before < prev.2
+                                    && p.runs > 0
+                            }) {
                                 // (a poll that has run at least once under this rule: its due time is known exactly)
                                 fail!(
                                     "C19/association-served-twice-while-another-waits",
@@ -473,7 +563,10 @@ pub fn analyse(case: &SmastCase, run: &MastRun) -> (Option<Violation>, bool, u64
                     if tasks[r].assoc == *assoc {
                         tasks[r].end_t = Some(*t);
                         if let Class::Poll(mask) = tasks[r].class {
-                            if let Some(p) = polls.iter_mut().find(|p| p.running && p.assoc == *assoc && p.classes == mask) {
+                            if let Some(p) = polls
+                                .iter_mut()
+                                .find(|p| p.running && p.assoc == *assoc && p.classes == mask)
+                            {
                                 p.running = false;
                                 p.not_before = *t + p.period;
                                 p.known = true;
@@ -520,7 +613,13 @@ pub fn analyse(case: &SmastCase, run: &MastRun) -> (Option<Violation>, bool, u64
                             format!("{} ms: link status request to {} while the task {:?} for {} was outstanding", written, dest, tasks[r].class, tasks[r].assoc)
                         );
                     }
-                    let timeout = case.cfg.assocs.iter().find(|a| a.address == *dest).map(|a| a.response_timeout_ms).unwrap_or(1000);
+                    let timeout = case
+                        .cfg
+                        .assocs
+                        .iter()
+                        .find(|a| a.address == *dest)
+                        .map(|a| a.response_timeout_ms)
+                        .unwrap_or(1000);
                     link_status_outstanding = Some((*dest, written, written + timeout));
                 }
             }
@@ -538,8 +637,16 @@ pub fn analyse(case: &SmastCase, run: &MastRun) -> (Option<Violation>, bool, u64
     // S5 at the end of the run: a poll that has been due for a while on an idle, connected channel has been starved
     if violation.is_none() && connected && running.is_none() {
         for p in &polls {
-            let due = p.demanded_at.map(|d| d.min(p.not_before)).unwrap_or(p.not_before);
-            if !p.removed && !p.running && p.known && due + 1000 < run.end_ms && idle_since(&hist, due, run.end_ms) {
+            let due = p
+                .demanded_at
+                .map(|d| d.min(p.not_before))
+                .unwrap_or(p.not_before);
+            if !p.removed
+                && !p.running
+                && p.known
+                && due + 1000 < run.end_ms
+                && idle_since(&hist, due, run.end_ms)
+            {
                 fail!(
                     "C19/poll-starved",
                     "",
@@ -563,8 +670,22 @@ pub fn analyse(case: &SmastCase, run: &MastRun) -> (Option<Violation>, bool, u64
             let mut asked = false;
             for (_, h) in &hist {
                 match h {
-                    H::TaskStart { t, .. } | H::TaskSuccess { t, .. } | H::TaskFail { t, .. } | H::Client { t, .. } | H::Closed { t, .. } if *t + 1 >= due => busy = true,
-                    H::LinkRx { t, ctrl, dest, .. } if ctrl & 0x4F == 0x49 && *dest == a.address && t.saturating_sub(case.latency.0) + 1 >= due => asked = true,
+                    H::TaskStart { t, .. }
+                    | H::TaskSuccess { t, .. }
+                    | H::TaskFail { t, .. }
+                    | H::Client { t, .. }
+                    | H::Closed { t, .. }
+                        if *t + 1 >= due =>
+                    {
+                        busy = true
+                    }
+                    H::LinkRx { t, ctrl, dest, .. }
+                        if ctrl & 0x4F == 0x49
+                            && *dest == a.address
+                            && t.saturating_sub(case.latency.0) + 1 >= due =>
+                    {
+                        asked = true
+                    }
                     _ => {}
                 }
             }
@@ -583,7 +704,10 @@ pub fn analyse(case: &SmastCase, run: &MastRun) -> (Option<Violation>, bool, u64
 
     // S8: no busy waiting - the master task is polled a bounded number of times per thing that happened
     let events = hist.len() as u64 + run.master_rx.len() as u64 + 1;
-    bump("probe.master_polls_per_event_x100", run.master_polls * 100 / events);
+    bump(
+        "probe.master_polls_per_event_x100",
+        run.master_polls * 100 / events,
+    );
     if run.master_polls > 200 * events + 2000 {
         fail!(
             "C19/busy-waiting",
